@@ -244,7 +244,9 @@ func (r *runner) step(op *Op) error {
 		r.nClear++
 		r.epochClear++
 		r.c.Count("op-cache-clear", 1)
-		r.checkLookups("after-cache-clear", false)
+		if !op.Quiet {
+			r.checkLookups("after-cache-clear", false)
+		}
 	case "reopen":
 		if err := r.x.Reopen(); err != nil {
 			return err
@@ -253,7 +255,9 @@ func (r *runner) step(op *Op) error {
 		r.nReopen++
 		r.epochReopen++
 		r.c.Count("op-reopen", 1)
-		r.checkLookups("after-reopen", true)
+		if !op.Quiet {
+			r.checkLookups("after-reopen", true)
+		}
 	case "delete":
 		r.doDelete(op)
 	case "check":
